@@ -369,6 +369,8 @@ pub enum SizeClass {
     Hundreds,
     /// thousands of high-entropy entries: forces leaf spill
     Huge,
+    /// tile count steered so the encoded root directory lands around the window (16257, 16384]
+    Window,
 }
 
 pub fn draw_size(rng: &mut Rng, huge_pct: u64) -> SizeClass {
@@ -390,6 +392,37 @@ pub fn draw_archive(rng: &mut Rng, size: SizeClass, ic: u8) -> Archive {
     let meta = Meta::draw(rng);
     let mut tiles = Vec::new();
     match size {
+        SizeClass::Window => {
+            // distinct 4-byte contents, ids consecutive or sparse: the entry list (and so the
+            // encoded root size) is known in advance; bisect the count against a target size
+            let sparse = rng.chance(50);
+            let base = rng.below(100);
+            let cseed = rng.next_u64() as u32 & 0x00ff_ffff;
+            let mut ids: Vec<u64> = Vec::with_capacity(9000);
+            let mut id = base;
+            for _ in 0..9000 {
+                ids.push(id);
+                id += if sparse { 1 + rng.log_range(1, 1 << 16) } else { 1 };
+            }
+            let entries: Vec<spec::SpecEntry> = ids.iter().enumerate().map(|(i, id)| spec::SpecEntry { tile_id: *id, offset: 4 * i as u64, length: 4, run_length: 1 }).collect();
+            let target = 16_257 - 140 + rng.below(127 + 280) as usize;
+            let size = |n: usize| spec::compress(ic, &spec::encode_dir(&entries[..n])).map_or(0, |b| b.len());
+            let (mut lo, mut hi) = (1usize, entries.len());
+            while lo < hi {
+                let mid = (lo + hi) / 2;
+                if size(mid) < target {
+                    lo = mid + 1;
+                } else {
+                    hi = mid;
+                }
+            }
+            for (i, id) in ids.iter().take(lo).enumerate() {
+                tiles.push(Tile { id: *id, c: Cont { k: 0, seed: cseed.wrapping_add(i as u32), len: 4 } });
+            }
+            if rng.chance(30) {
+                rng.shuffle(&mut tiles);
+            }
+        }
         SizeClass::Huge => {
             let n = rng.range(6000, 30_000);
             let mut id = rng.below(1000);
